@@ -5,6 +5,8 @@
 #include "sym.h"
 #include "shapes.h"
 #include "main.h"
+// `0.5 * (Zp + 1) * zdiff` (DepthToZ): Sym * long would be ambiguous between the int / double / float overloads of sym.h
+namespace symns { inline Sym operator* (Sym a, long b) { return a * Sym (b); } }
 #include <ImathFrustum.h>
 #include <ImathFrustumTest.h>
 OPAQUE_LENGTH (Vec3, "V3", 3)
@@ -21,6 +23,47 @@ Frustum<symns::Sym>::planes (Plane3<symns::Sym> p[6], const Matrix44<symns::Sym>
 }
 IMATH_INTERNAL_NAMESPACE_HEADER_EXIT
 using namespace IMATH_INTERNAL_NAMESPACE;
+// ---- DepthToZ: the REAL template body, with the operand of its `long (…)` cast made observable.
+// At T = Sym, `long (x)` records x (sym.h).  For translator validation the same body is instantiated at C16CapD: plain double
+// arithmetic (every mixed operand converts to double exactly as in Frustum<double>), `long (x)` records x and truncates.
+struct C16CapD
+{
+    double v;
+    C16CapD () : v (0) {}
+    C16CapD (double x) : v (x) {}
+    explicit operator long () const { last () = v; ++count (); return long (v); }
+    static double& last () { static double d = 0; return d; }
+    static int&    count () { static int n = 0; return n; }
+};
+inline C16CapD operator+ (C16CapD a, C16CapD b) { return C16CapD (a.v + b.v); }
+inline C16CapD operator- (C16CapD a, C16CapD b) { return C16CapD (a.v - b.v); }
+inline C16CapD operator* (C16CapD a, C16CapD b) { return C16CapD (a.v * b.v); }
+inline C16CapD operator/ (C16CapD a, C16CapD b) { return C16CapD (a.v / b.v); }
+inline C16CapD operator- (C16CapD a) { return C16CapD (-a.v); }
+template <class T> struct C16Long;
+template <> struct C16Long<symns::Sym>
+{
+    typedef symns::Sym S;
+    static void       reset () { symns::longCasts ().clear (); }
+    static int        count () { return (int) symns::longCasts ().size (); }
+    static symns::Sym last () { return symns::longCasts ().empty () ? symns::Sym (0) : symns::longCasts ().back (); }
+    static long       trunc (symns::Sym) { return 0; }
+    static long       vsPlainDouble (S, S, S, S, S, S, bool, S, long, long, long) { return 0; }
+};
+template <> struct C16Long<double>
+{
+    typedef C16CapD S;
+    static void   reset () { C16CapD::count () = 0; }
+    static int    count () { return C16CapD::count (); }
+    static double last () { return C16CapD::last (); }
+    static long   trunc (double v) { return long (v); }
+    // the instantiation at C16CapD returns what Frustum<double>::DepthToZ returns (difference, must be 0)
+    static long vsPlainDouble (double n, double f, double l, double r, double t, double b, bool o, double depth, long zmin, long zmax, long z)
+    {
+        return z - Frustum<double> (n, f, l, r, t, b, o).DepthToZ (depth, zmin, zmax);
+    }
+};
+template <> struct C16Long<float> : C16Long<double> {}; // (not run: EXTRACT_D)
 namespace
 {
 template <class T> std::vector<T> c16_nativePlane (const std::vector<T>& a, bool ortho, int i)
